@@ -211,6 +211,8 @@ Definition dec_s (k : skind) (j : json) : option json :=
     | KU64, JStr (SInt z) => if (0 <=? z) && (z <=? U64MAX) then Some j else None
     | KInt, JStr (SInt z) => if Z.abs z <? INT_BOUND then Some j else None
     | KDec, JStr (SDec m) => if Z.abs m <? DEC_BOUND then Some j else None
+    | KDec, JStr (SInt z) =>                 (* LegacyNewDecFromStr accepts a plain integer *)
+        if Z.abs (z * 1000000000000000000) <? DEC_BOUND then Some (JStr (SDec (z * 1000000000000000000))) else None
     | KAddr, JStr (SAddr _) => Some j
     | KAddr, JStr (SText EmptyString) => Some j
     | _, _ => None
